@@ -28,6 +28,9 @@ def main(argv):
         json.dump({"fatal": "check-import-failed: %s" % traceback.format_exc()[-3000:]}, open(out, "w"))
         return 0
     ctx = Ctx(prop, tier, seed, shard, nshards, soft_s)
+    from pvm import covmon
+
+    cov_on = covmon.start(env.SRC) if shard % 4 == 0 else False  # line reach is sampled on every 4th shard
     try:
         mod.run(ctx)
     except Exception:  # noqa: BLE001
@@ -36,6 +39,7 @@ def main(argv):
     from pvm import exact
 
     res["oracle_stats"] = dict(exact.STATS)
+    res["line_hits"] = covmon.result() if cov_on else {}
     with open(out, "w") as f:
         json.dump(res, f)
     return 0
